@@ -7,6 +7,13 @@ def _strlit(t):
     return t.replace("&'static str", 'StrLit')
 
 
+AXIOMS = """pub broadcast axiom fn ax_constraint_id_key_model() ensures #[trigger] vstd::std_specs::hash::obeys_key_model::<ConstraintID>();
+// T4: derived Ord on the id newtypes is the order of the wrapped u64 (BTreeSet key model)
+pub broadcast axiom fn ax_constraint_id_cmp() ensures #[trigger] vstd::std_specs::btree::key_obeys_cmp_spec::<ConstraintID>();
+pub broadcast axiom fn ax_variable_id_cmp() ensures #[trigger] vstd::std_specs::btree::key_obeys_cmp_spec::<VariableID>();
+"""
+
+
 def emit(asm):
     R = asm.rules
     out = []
@@ -32,5 +39,5 @@ pub struct DecodeError {}   // prost::DecodeError (opaque)
                 text += 'impl Default for ConstraintHints { #[verifier::external_body] fn default() -> (r: Self) ensures r.one_hot_constraints@.len() == 0, r.sos1_constraints@.len() == 0 { unimplemented!() } }\n'
         out.append(text)
     t = core.get_newtype('constraint.rs', 'ConstraintID', R)
-    out.append(t['text'] + 'pub broadcast axiom fn ax_constraint_id_key_model() ensures #[trigger] vstd::std_specs::hash::obeys_key_model::<ConstraintID>();\n')
+    out.append(t['text'] + AXIOMS)
     asm.extracted('\n'.join(out), 'typed-layer types (parse.rs, decision_variable.rs, constraint.rs, function.rs, instance.rs)')
